@@ -112,7 +112,7 @@ def side_case(seed):
                 pool = [rng.uniform(0.01, 0.1), rng.uniform(0.1, 0.3)]
                 hs = [pool[0]] + [rng.choice(pool) for _ in range(rng.randint(2, 3))]
             g = gen_tt(rng, dims, [1] * order, max_ranks(dims), cplx, 'float')
-            solver = rng.choice(['als', 'mals']) if order >= 2 else 'als'
+            solver = rng.choice(['als', 'mals'])          # order 1 with mals is handed to the one-site scheme (F28)
             f = ode.implicit_euler if which == 'implicit' else ode.trapezoidal_rule
             sol = f(A, x0, g, hs, repeats=2, tt_solver=solver, micro_solver=rng.choice(['solve', 'lu']), normalize=normalize, progress=False)
             ref = [xv]
@@ -126,8 +126,9 @@ def side_case(seed):
             h = rng.uniform(0.01, 0.1)
             steps = rng.randint(1, 3)
             o = rng.choice([2, 4, 6, 8])
-            desc['order'] = o
-            sol = ode.hod(A, x0, h, steps, order=o, threshold=0, normalize=normalize, progress=False)
+            o_arg = o - 1 if rng.random() < 0.3 else o        # an odd order is documented to be raised to the next even one
+            desc['order'] = o_arg
+            sol = ode.hod(A, x0, h, steps, order=o_arg, threshold=0, normalize=normalize, progress=False)
             oph = sum(2 / math.factorial(2 * k - 1) * h ** (2 * k - 1) * np.linalg.matrix_power(Am, 2 * k - 1) for k in range(1, o // 2 + 1))
             opf = h * Am + sum(2 / math.factorial(2 * k - 1) * (h / 2) ** (2 * k - 1) * np.linalg.matrix_power(Am, 2 * k - 1) for k in range(2, o // 2 + 1))
             prev = normed(xv - opf @ ((I - 0.5 * h * Am) @ xv))
